@@ -20,7 +20,8 @@
     "Non-overshooting kind": all but HMA, DEMA, TEMA, LinReg (`C12_every_smooth_kind_hull`, from the C15 hull theorems).
   The float side — rounding residue of either sign behind exact `== 0` guards — is what these theorems cannot see; the
   correspondence run tests the ranges strictly on the implementation's own values (see KNOWN_FINDINGS.txt).
-  Partial: the SMI signal line, Envelopes ordering for arbitrary kinds, PriceChannel ordering: run only.
+    Price channel upper ≥ lower and Donchian lowest ≤ middle ≤ highest (`C12_channels_order_run`).
+  Partial: the SMI signal line and Envelopes ordering for arbitrary kinds: run only.
 -/
 import YataProofs.Indicators.More
 import YataProofs.Numeric.LinVol
@@ -37,6 +38,7 @@ import YataProofs.Indicators.BBRun
 import YataProofs.Indicators.KeltnerRun
 import YataProofs.Indicators.CMORun
 import YataProofs.Indicators.AroonRun
+import YataProofs.Indicators.PChanRun
 import YataProofs.Numeric.TSIRange
 import YataProofs.Numeric.MeanAbsDev
 namespace Yata.C12
@@ -230,6 +232,17 @@ theorem C12_aroon_run {P : Nat} (c : AroonCfg) (k0 : Candle ℚ) (hv : Aroon.val
       ∀ i (hi : i < outs.length), ∃ up dn, (outs[i]).map VExp.value = [up, dn] ∧ 0 ≤ up ∧ up ≤ 1 ∧ 0 ≤ dn ∧ dn ≤ 1 :=
   Aroon.run_range c k0 hv cs
 
+/-- Price channel and Donchian channel over whole streams of candles with low ≤ high, from the constructor: no step panics;
+    price channel upper ≥ lower (sigma > 0), Donchian lowest ≤ middle ≤ highest, at every step -/
+theorem C12_channels_order_run {P n : Nat} (σ : ℚ) (hσ : 0 < σ) (k0 : Candle ℚ) (hn1 : 1 < n) (hn : n ≤ P - 1)
+    (cs : List (Candle ℚ)) (hcs : ∀ k ∈ cs, k.low ≤ k.high) :
+    ∃ s0, Channel.init P n σ true k0 = .ok s0 ∧
+      (∃ outs s', runM (fun s k => Channel.priceChannelVals s k) s0 cs = .ok (outs, s') ∧ outs.length = cs.length ∧
+        ∀ o ∈ outs, ∃ up lo, o.map VExp.value = [up, lo] ∧ lo ≤ up) ∧
+      (∃ outs s', runM (fun s k => Channel.donchianVals s k) s0 cs = .ok (outs, s') ∧ outs.length = cs.length ∧
+        ∀ o ∈ outs, ∃ lo mid hi, o.map VExp.value = [lo, mid, hi] ∧ lo ≤ mid ∧ mid ≤ hi) :=
+  Channel.order_run σ hσ k0 hn1 hn cs hcs
+
 theorem C12_tr_nonneg (c : Candle ℚ) (p : ℚ) (h : c.low ≤ c.high) : 0 ≤ c.trClose p := tr_nonneg c p h
 
 theorem C12_clv_range (c : Candle ℚ) (h1 : c.low ≤ c.close) (h2 : c.close ≤ c.high) : -1 ≤ c.clv ∧ c.clv ≤ 1 :=
@@ -273,3 +286,4 @@ end Yata.C12
 #print axioms Yata.C12.C12_keltner_run
 #print axioms Yata.C12.C12_cmo_run
 #print axioms Yata.C12.C12_aroon_run
+#print axioms Yata.C12.C12_channels_order_run
